@@ -451,3 +451,26 @@ def timezone_offsets_in_comparisons(i: int, j: int) -> bool:
         if _one(r) is not f(x, y):
             return False
     return True
+
+
+TV_DTY = {k: P31.parse('xs:dateTime($a) %s xs:dateTime($b)' % k) for k in OPS}
+
+
+@ob(budget=200, bound='a = 2000-12-31T23:00:00 and b = 2001-01-01T01:00:00 (or the reverse) with two timezone designators from the table of 8 (indices chosen '
+                      'by the solver): the six value comparisons order the values as instants although the local years differ',
+    funcs=['elementpath/datatypes/datetime.py:AbstractDateTime._compare', 'elementpath/datatypes/datetime.py:AbstractDateTime.todelta'])
+def year_boundary_comparisons(i: int, j: int, swap: bool) -> bool:
+    """
+    pre: 0 <= i <= 7 and 0 <= j <= 7
+    post: _
+    """
+    oa, ob_ = OFFS[[k for k in range(8) if k == i][0]], OFFS[[k for k in range(8) if k == j][0]]
+    a, b = '2000-12-31T23:00:00' + oa, '2001-01-01T01:00:00' + ob_
+    x, y = -60 - _OFFMIN[oa], 60 - _OFFMIN[ob_]          # instants in minutes relative to 2001-01-01T00:00Z
+    if swap:
+        a, b, x, y = b, a, y, x
+    for k, f in OPS.items():
+        r = TV_DTY[k].evaluate(XPathContext(item=1, variables={'a': a, 'b': b}))
+        if _one(r) is not f(x, y):
+            return False
+    return True
